@@ -257,7 +257,14 @@ def check_seeds_and_stats(fx, R):
             if start and isinstance(start[0], (int, float)) and start[0] > 0:
                 R.violated('B7', '%s::compute:loop' % cname, 'the accumulation loop starts at index %s: the first points never reach the extrema / mean' % start[0], fx.rel(f['loc']), 'E-STATE')
             else:
-                R.undecided('B7', '%s::compute:loop' % cname, 'the accumulation loop is not one of the enumerated forms over points[0..size)')
+                cov = loop_coverage(f, loops[0]) if len(loops) == 1 else None
+                if cov and cov[0] == 'violated':
+                    R.violated('B7', 'PointSetPreconditioner::compute:loop-coverage', 'for a set of %d points the accumulation loop `for (%s; %s; %s)` visits the indexes %s: %d of the %d points never reach the '
+                               'extrema / the mean (sets of 1..1000 points are inside the quantifier) [%s]' % (cov[1], cov[2], cov[3], cov[4], cov[5], cov[6], cov[1], cname), fx.rel(loops[0]['loc']), 'E-STEP')
+                elif cov and cov[0] == 'holds':
+                    R.holds('B7', '%s::compute:loop' % cname, 'the loop control visits every index once for N = %s' % (cov[1],), fx.rel(f['loc']), 'E-STEP')
+                else:
+                    R.undecided('B7', '%s::compute:loop' % cname, 'the accumulation loop is not one of the enumerated forms over points[0..size)%s' % (': ' + cov[1] if cov else ''))
         R.form(('+=', 'this.pointSetMean_', 'point') in ex and any(m(('/=', 'this.pointSetMean_', '$D'), s, {}) and 'size' in str(s) and 'points' in str(s) for s in ex),
                 'B7', '%s::compute:mean' % cname, 'mean is not (sum of the points)/points.size(): %s' % [s for s in ex if 'pointSetMean_' in str(s)],
                 'mean = sum / size', fx.rel(f['loc']), 'E-ALG')
@@ -460,6 +467,50 @@ def to_sym(s, env):
             a = to_sym(s[1], env)
             return None if a is None else -a
     return None
+
+
+def loop_coverage(f, L):
+    """E-STEP: the loop control (and the integer declarations in front of it) evaluated on witness set sizes; the subscripts of `points` must be 0..N-1"""
+    from .. import mini
+    from .C09 import _incr, _sizes
+    top = f['body']['s'] if f.get('body') and f['body'].get('k') == 'Compound' else []
+    if not any(x is L for x in top):
+        return ('undecided', 'loop is not a top-level statement')
+    subs_ = []
+    for x in walk(L['b']):
+        if isinstance(x, dict) and x.get('k') in ('Op', 'Index'):
+            t_ = deep_unwrap(sx(x))
+            if isinstance(t_, tuple) and len(t_) == 3 and t_[0] == '[]' and t_[1] == 'points' and t_[2] not in subs_:
+                subs_.append(t_[2])
+    if not subs_:
+        return ('undecided', 'no subscript of `points` in the loop')
+    norm = lambda t: _sizes(deep_unwrap(t))
+    sizes = (1, 2, 3, 7, 100, 511, 512, 513, 777, 1000)
+    for N in sizes:
+        env = {'points': N}
+        stp = mini.Step(norm)
+        try:
+            for x in top[:top.index(L)]:
+                if x.get('k') == 'Decl' and all((v['t'].get('c') == 'int') for v in x['vars']):
+                    stp.run(x, env)
+            if L.get('init') is not None:
+                stp.run(L['init'], env)
+            seen, it = [], 0
+            while stp.ev(norm(sx(L['c'])), env):
+                seen += [stp.ev(norm(e_), env) for e_ in subs_]
+                inc = deep_unwrap(sx(L['inc']))
+                incs = list(inc[1:]) if isinstance(inc, tuple) and inc and inc[0] == ',' else [inc]
+                for i_ in incs:
+                    stp.ev(_incr(i_) if isinstance(i_, tuple) and i_[0] in ('u++', '++u', 'u--', '--u') else i_, env)
+                it += 1
+                if it > 5000:
+                    return ('undecided', 'loop does not end')
+        except (mini.Unsupported, mini.Returned) as e:
+            return ('undecided', 'loop control not interpretable: %s' % e)
+        if sorted(seen) != list(range(N)):
+            missing = sorted(set(range(N)) - set(seen))
+            return ('violated', N, pp(L.get('init'))[:60] if L.get('init') is not None else '', pp(L['c'])[:60], pp(L['inc'])[:60], (str(seen[:6])[:-1] + ', ...]') if len(seen) > 6 else str(seen), len(missing))
+    return ('holds', ', '.join(str(n_) for n_ in sizes))
 
 
 def early_reject(fx, R, f, cname):
